@@ -29,6 +29,8 @@ TABLE = [
      "num(value) <= num(self.params['exclusiveMinimum'])", {}),
     ("numeric", "ExclusiveMaximum", "is_num(value)", None, "(int, float)", {"exclusiveMaximum": "is_num({p})"},
      "num(value) >= num(self.params['exclusiveMaximum'])", {}),
+    ("numeric", "MultipleOf", "is_num(value)", None, "(int, float)", {"multipleOf": "is_num({p}) and num({p}) > 0"},
+     "not d6_multiple(value, self.params['multipleOf'])", {"bounded_only": True}),
     ("array", "MinItems", "is_list(value)", "list", "(list,)", {"minItems": "is_num({p})"},
      "len(value) < num(self.params['minItems'])", {}),
     ("array", "MaxItems", "is_list(value)", "list", "(list,)", {"maxItems": "is_num({p})"},
@@ -71,6 +73,29 @@ TABLE = [
 
 PROPS_V = ["C01", "C10", "C08", "C13", "C14"]
 
+# Element well-formedness: every keyword attribute is absent, NotPassed, or of the shape the Draft-6 metaschema gives it
+# (this is what the keyword validators require of their parameters)
+from pyvc.contracts import macro
+_wf = []
+for _mod, _K, _vp, _vk, _ts, _kws, _cond, _extra in TABLE:
+    if _K == "AdditionalProperties":
+        continue
+    for _kw, _req in _kws.items():
+        _p = f"e.{_kw}"
+        _wf.append(f"(attr_absent(e,'{_kw}') or is_np({_p}) or ({_req.replace('{p}', _p).replace('{x}', _p)}))")
+_wf.append("(attr_absent(e,'const') or is_np(e.const) or is_json(e.const))")
+_wf.append("(attr_absent(e,'enum') or is_np(e.enum) or (is_json(e.enum) and is_list(e.enum)))")
+_wf.append("(attr_absent(e,'uniqueItems') or is_np(e.uniqueItems) or is_bool(e.uniqueItems))")
+_wf.append("(attr_absent(e,'properties') or is_np(e.properties) or is_none(e.properties) or (isinstance(e.properties, _PropertyDict) and "
+           + STRLIST.replace("{x}", "e.properties.required") + "))")
+_seen = []
+for _c in _wf:
+    if _c not in _seen:
+        _seen.append(_c)
+# `required` may also be None on the way in (getattr default)
+macro("elem_wf", ["e"], " and ".join(_seen).replace("(attr_absent(e,'required') or is_np(e.required) or",
+                                                      "(attr_absent(e,'required') or is_np(e.required) or is_none(e.required) or"))
+
 
 def params_req(kws):
     parts = ["dict_wf(self.params)"]
@@ -96,7 +121,9 @@ for mod, K, vpred, vkind, types_src, kws, cond, extra in TABLE:
     if vkind:
         kinds["value"] = vkind
     contract(M + f"{K}._validate", requires=f"{vpred} and {preq}", raises=[("ValidationError", cond)],
-             calls=extra.get("calls"), invariants=extra.get("invariants"), kinds=kinds, props=props)
+             calls=extra.get("calls"), invariants=extra.get("invariants"), kinds=kinds, props=props,
+             bounded_only=extra.get("bounded_only", False),
+             note="binary64 arithmetic (value / multipleOf, int(), %) is outside the exact-rational float model: checked by the runtime monitor over a numeric pool only" if extra.get("bounded_only") else "")
     # the inherited __call__, instantiated for K: type guard + _validate by contract
     extra_v = " and forall(lambda j: not is_np(value[j]), len(value))" if K == "Contains" else ""
     vwf = "is_json(value)" + \
@@ -125,3 +152,31 @@ contract(BASE + "_is_instance",
          returns="result is ((bool in type_args) if is_bool(value) else isinstance(value, type_args))",
          ghost={"function": "(bool in type_args) if is_bool(value) else isinstance(value, type_args)"},
          result_kind="bool", kinds={"type_args": "tuple"}, props=["C01", "C16", "C10"])
+
+# ---- Validator.from_element, instantiated per keyword validator class: None iff some keyword is missing/NotPassed on the
+# element, else a K whose params map each keyword to the element's attribute
+FE_PROPS = ["C01", "C08", "C13", "C14", "C15"]
+for mod, K, vpred, vkind, types_src, kws, cond, extra in TABLE:
+    if K == "Required":
+        continue          # Required overrides from_element (contracts/validation_object.py)
+    names = list(kws)
+    missing = " or ".join(f"(attr_absent(element,'{k}') or is_np(element.{k}))" for k in names)
+    params = " and ".join([f"dict_wf(result.params) and len(result.params) == {len(names)}"] +
+                          [f"has(result.params,'{k}') and result.params['{k}'] is element.{k}" for k in names])
+    contract(BASE + "Validator.from_element", inst=K, requires="is_obj(element) or is_cls(element)",
+             returns=f"(result is None) == ({missing}) and implies(result is not None, type_is(result, {K}) and {params})",
+             props=FE_PROPS)
+
+for K, names in (("Const", ["const"]), ("Enum", ["enum"]), ("UniqueItems", ["uniqueItems"])):
+    missing = " or ".join(f"(attr_absent(element,'{k}') or is_np(element.{k}))" for k in names)
+    params = " and ".join([f"dict_wf(result.params) and len(result.params) == {len(names)}"] +
+                          [f"has(result.params,'{k}') and result.params['{k}'] is element.{k}" for k in names])
+    contract(BASE + "Validator.from_element", inst=K, requires="is_obj(element) or is_cls(element)",
+             returns=f"(result is None) == ({missing}) and implies(result is not None, type_is(result, {K}) and {params})",
+             props=FE_PROPS)
+
+# UniqueItems overrides from_element: uniqueItems false means "no validator"
+contract("statham.schema.validation.array:UniqueItems.from_element", requires="is_obj(element) or is_cls(element)",
+         returns="(result is None) == (attr_absent(element,'uniqueItems') or is_np(element.uniqueItems) or element.uniqueItems is False) and "
+                 "implies(result is not None, type_is(result, UniqueItems) and dict_wf(result.params) and result.params['uniqueItems'] is element.uniqueItems)",
+         props=FE_PROPS)
